@@ -43,6 +43,11 @@ const reqQ = 250
 // larger than 128kB.
 const maxRequestLength = 128 * 1024
 
+// maxPieces bounds the piece indices that we accept before the metadata is
+// known.  It is the number of pieces that fit in the largest bitfield
+// message that we are willing to read (1 MiB).
+const maxPieces = 8 * 1024 * 1024
+
 type Requested struct {
 	Index, Begin, Length uint32
 }
@@ -831,7 +836,11 @@ func handleMessage(peer *Peer, m protocol.Message) error {
 		unchoke(peer, false)
 		writeEvent(peer, TorPeerInterested{peer, false})
 	case protocol.Have:
-		if peer.Info != nil && m.Index >= uint32(numPieces(peer)) {
+		if peer.Info != nil {
+			if m.Index >= uint32(numPieces(peer)) {
+				return ErrRange
+			}
+		} else if m.Index >= maxPieces {
 			return ErrRange
 		}
 		if !peer.bitmap.Get(int(m.Index)) {
